@@ -568,23 +568,49 @@ example : (⟨none, none, [⟨str "x", []⟩, ⟨str "tag", str "a%3Bb"⟩, ⟨s
 example : (⟨none, none, [⟨str "x", []⟩]⟩ : FromTo).getTag = none :=
   C14_from_to_tag_absent _ (by decide +kernel)
 
-/-- Domain of a CSeq value: the number Go prints and re-reads (int32 range is what SIP allows),
-the method one non-empty word without white space. -/
-structure CSeqDom (c : CSeq) : Prop where
-  seq : 0 ≤ c.seq ∧ c.seq ≤ 2147483647
-  method : c.method ≠ [] ∧ Plain c.method
+/-- CSeq is re-encoded literally: whatever text decodes comes back byte for byte (leading zeros, wider
+white space between number and method included). No domain restriction. -/
+theorem C14_cseq_lossless {s : Bytes} {c : CSeq} (h : parseCSeq s = some c) : c.encode = s := by
+  unfold parseCSeq at h
+  split at h
+  · rename_i n m hf
+    cases ha : atoi n with
+    | none => simp [ha] at h
+    | some i =>
+      simp only [ha, Option.map_some, Option.some.injEq] at h
+      subst h
+      have hs : s ≠ [] := by
+        intro hnil
+        rw [hnil, show fields ([] : Bytes) = [] by decide] at hf
+        exact absurd hf (by simp)
+      simp [CSeq.encode, hs]
+  · exact absurd h (by simp)
 
-theorem C14_cseq (c : CSeq) (h : CSeqDom c) : parseCSeq c.encode = some c := by
-  unfold parseCSeq CSeq.encode
-  rw [fields_two (itoa c.seq) c.method (plain_itoa h.seq.1) h.method.2 (itoa_ne_nil h.seq.1) h.method.1]
+theorem C14_cseq_reencode (s : Bytes) :
+    (parseCSeq s).map CSeq.encode = (parseCSeq s).map (fun _ => s) := by
+  cases h : parseCSeq s with
+  | none => rfl
+  | some c => simp [C14_cseq_lossless h]
+
+/-- Domain of a canonical CSeq text: the number Go prints and re-reads (int32 range is what SIP allows),
+the method one non-empty word without white space. -/
+structure CSeqDom (n : Int) (m : Bytes) : Prop where
+  seq : 0 ≤ n ∧ n ≤ 2147483647
+  method : m ≠ [] ∧ Plain m
+
+/-- decoding extracts exactly the number and the method the text denotes -/
+theorem C14_cseq (n : Int) (m : Bytes) (h : CSeqDom n m) :
+    parseCSeq (itoa n ++ [32] ++ m) = some { seq := n, method := m, text := itoa n ++ [32] ++ m } := by
+  unfold parseCSeq
+  rw [fields_two (itoa n) m (plain_itoa h.seq.1) h.method.2 (itoa_ne_nil h.seq.1) h.method.1]
   simp only [atoi_itoa h.seq.1 (by have := h.seq.2; omega), Option.map_some]
 
-theorem C14_cseq_reencode (c : CSeq) (h : CSeqDom c) :
-    (parseCSeq c.encode).map CSeq.encode = some c.encode := by rw [C14_cseq c h]; rfl
-
-example : CSeqDom { seq := 2147483647, method := str "INVITE" } := by constructor <;> decide +kernel
-example : parseCSeq (str "314159 INVITE") = some { seq := 314159, method := str "INVITE" } := by
+example : CSeqDom 2147483647 (str "INVITE") := by constructor <;> decide +kernel
+example : parseCSeq (str "314159 INVITE") = some { seq := 314159, method := str "INVITE", text := str "314159 INVITE" } := by
   decide +kernel
+/-- leading zeros and a tab: number and method are extracted, the text is kept -/
+example : (parseCSeq (str "007\tINVITE")).map (fun c => (c.seq, c.method, c.encode)) =
+    some (7, str "INVITE", str "007\tINVITE") := by decide +kernel
 
 /-! ## outside the domains: what the code normalises
 
